@@ -88,6 +88,8 @@ import re as _re
 TRANSPARENT_RE = _re.compile(r"^<core::(result::Result|option::Option|ops::control_flow::ControlFlow)<.*> as core::ops::try_trait::(Try|FromResidual<.*>)>::(branch|from_residual|from_output)$"
                              r"|^<(.*) as core::convert::From<\2>>::from$|^<.* as core::convert::Into<.*>>::into$"
                              r"|^core::result::Result::<.*>::(ok|err)$|^core::option::Option::<.*>::(ok_or|copied|cloned)$")
+# predicates on the shape of a Result/Option; opened up only by rules that ask for it (most rules recognise them as calls)
+SHAPE_PRED_RE = _re.compile(r"^core::result::Result::<.*>::(is_ok|is_err)$|^core::option::Option::<.*>::(is_some|is_none)$")
 
 
 def default_inlinable(F, callee, hof=False):
@@ -229,7 +231,7 @@ def _const_discr(F, e):
             return b[1][4]
         if b[0] == "const" and b[4] is not None:
             v = b[4]
-            if v in KNOWN_VARIANTS and (b[2] or "").startswith(("core::option::Option", "core::result::Result", "core::ops::control_flow::ControlFlow")):
+            if v in KNOWN_VARIANTS and (b[2] or b[3] or "").startswith(("core::option::Option", "core::result::Result", "core::ops::control_flow::ControlFlow")):
                 return KNOWN_VARIANTS[v]
             try:
                 a = F.adt(b[2])
@@ -241,6 +243,11 @@ def _const_discr(F, e):
         return None
     if e[0] == "const" and isinstance(e[1], int) and e[4] is None:
         return e[1]
+    if e[0] == "binop" and e[1] in ("Eq", "Ne") and (deep_strip(e[2])[0] == "discr" or deep_strip(e[3])[0] == "discr"):
+        a, b = _const_discr(F, e[2]), _const_discr(F, e[3])        # `matches!(x, Variant(..))`: discriminant compared with a constant
+        if a is None or b is None:
+            return None
+        return int((a == b) == (e[1] == "Eq"))
     v = fold(e)
     return v if isinstance(v, int) and e[0] in ("binop", "unop", "cast") else None
 
@@ -266,7 +273,40 @@ def simplify(F, n, rounds=6):
             return True
 
         def place_bad(pl, at2):
-            if any(p["k"] == "deref" for p in pl["p"]):
+            projs = pl["p"]
+            if projs and projs[0]["k"] == "deref" and not any(p["k"] == "deref" for p in projs[1:]):
+                # `*r` where r is, on every path, a shared reference to a local of this body that is never mutably borrowed (`matches!(*self, ..)`
+                # of an inlined `&self` method): the borrow checker rules out a write while r lives, so this reads that local's value
+                tgts = []
+
+                def refs_of(local2, at3, d2=0):
+                    """False when some definition of the reference is not `&local` (possibly forwarded through plain moves)"""
+                    if d2 > 6:
+                        return False
+                    sites = fl.reaching(local2, at3)
+                    if not sites:
+                        return False
+                    for site in sites:
+                        if site[0] == "entry":
+                            return False
+                        sb2, si2 = site
+                        bl2 = body["blocks"][sb2]
+                        st2 = bl2["s"][si2] if si2 < len(bl2["s"]) else None
+                        if not (st2 and st2["k"] == "assign" and not st2["l"]["p"]):
+                            return False
+                        r2 = st2["r"]
+                        if r2["k"] == "ref" and r2.get("m") == "shared" and not any(p["k"] == "deref" for p in r2["p"]["p"]):
+                            tgts.append((r2["p"]["l"], (sb2, si2)))
+                        elif r2["k"] == "use" and r2["o"]["k"] in ("copy", "move") and not r2["o"]["p"]["p"]:
+                            if not refs_of(r2["o"]["p"]["l"], (sb2, si2), d2 + 1):
+                                return False
+                        else:
+                            return False
+                    return True
+                if not refs_of(pl["l"], at2) or not tgts:
+                    return True
+                return any(reads_memory(fl, l2, a2, depth + 1, seen) for l2, a2 in tgts)
+            if any(p["k"] == "deref" for p in projs):
                 return True
             return reads_memory(fl, pl["l"], at2, depth + 1, seen)
 
@@ -555,3 +595,48 @@ def cached(F, inst, keep=None, tag="", fold_consts=True, thread=False, **kw):
                         break
         c[k] = n
     return c[k]
+
+
+def assuming(F, n, cut):
+    """the normal form `n` under the assumption that the switch edges `cut` = {(block, target)} are never taken: those edges are removed, then
+    constants are folded and joins threaded again, so that everything that could only happen through them is dead. Used for polarity
+    questions ("is X reachable when the comparison never holds?") that plain reachability cannot answer across Option/Result joins."""
+    c = F.__dict__.setdefault("_norm_cache", {})
+    k = ("assume", id(n), frozenset(cut))
+    if k in c:
+        return c[k]
+    body = n.body
+    blocks = [dict(bl) for bl in body["blocks"]]
+    for b, bl in enumerate(blocks):
+        t = bl["t"]
+        if t["k"] != "switch":
+            continue
+        rm = {tg for (bb, tg) in cut if bb == b}
+        if not rm:
+            continue
+        vals = [[v, tg] for v, tg in t["vals"] if tg not in rm]
+        els = t["else"]
+        if els in rm:
+            if not vals:
+                bl["t"] = {"k": "unreachable", "sp": t.get("sp", ""), "exp": False}
+                continue
+            els = vals[-1][1]; vals = vals[:-1]
+        if not vals or all(tg == els for _, tg in vals):
+            bl["t"] = {"k": "goto", "ret": els, "sp": t.get("sp", ""), "exp": t.get("exp", False), "assumed": True}
+        else:
+            nt = dict(t); nt["vals"] = vals; nt["else"] = els
+            bl["t"] = nt
+    d = dict(n.raw)
+    d["body"] = {"argc": body["argc"], "locals": list(body["locals"]), "names": list(body.get("names") or []), "blocks": blocks}
+    n2 = NInst(d)
+    n2.origin = getattr(n, "origin", n)
+    n2.inlined = getattr(n, "inlined", [])
+    simplify(F, n2)
+    for _ in range(4):
+        nb = len(n2.body["blocks"])
+        thread_jumps(F, n2)
+        simplify(F, n2)
+        if len(n2.body["blocks"]) == nb:
+            break
+    c[k] = n2
+    return n2
